@@ -11,7 +11,7 @@ static ENABLED: AtomicBool = AtomicBool::new(false);
 static N: AtomicUsize = AtomicUsize::new(0);
 static mut RANGES: [(usize, usize); CAP] = [(0, 0); CAP];
 static HITS: AtomicUsize = AtomicUsize::new(0);
-static mut HIT_LOG: [(usize, usize); 16] = [(0, 0); 16];
+static mut HIT_LOG: [(usize, usize, u64); 16] = [(0, 0, 0); 16];
 
 // SAFETY: delegates to System; the bookkeeping never allocates.
 unsafe impl GlobalAlloc for Spy {
@@ -44,7 +44,7 @@ fn check(p: usize, size: usize) {
             let h = HITS.fetch_add(1, Ordering::Relaxed);
             if h < 16 {
                 // SAFETY: as above.
-                unsafe { HIT_LOG[h] = (p, size) };
+                unsafe { HIT_LOG[h] = (p, size, crate::evlog::SEQ.load(Ordering::Relaxed)) };
             }
         }
     }
@@ -93,8 +93,8 @@ pub fn remove_range(vaddr: usize, len: usize) {
         }
     }
 }
-/// Returns and clears the hits (ptr, size) recorded so far.
-pub fn take_hits() -> Vec<(usize, usize)> {
+/// Returns and clears the hits (ptr, size, position in the event log) recorded so far.
+pub fn take_hits() -> Vec<(usize, usize, u64)> {
     let h = HITS.swap(0, Ordering::SeqCst);
     let mut v = vec![];
     for i in 0..h.min(16) {
